@@ -120,3 +120,56 @@ Definition dstep (s : dstate) (o : dop) : dstate :=
   | DAdd df => add_avp s df
   end.
 Definition drun (ops : list dop) : dstate := fold_left dstep ops dict_empty.
+
+(* ----- the history of an operation sequence, as data (used by the C14 statements) ----- *)
+(* the definitions an operation hands to add_avp, in call order *)
+Definition defs_of_app (a : xapp) : list adef := map def_of_x (xa_avps a).
+Definition defs_of_op (o : dop) : list adef :=
+  match o with
+  | DLoad apps => flat_map defs_of_app apps
+  | DAdd df => [df]
+  end.
+Definition defs_of (ops : list dop) : list adef := flat_map defs_of_op ops.
+
+(* the LAST element of l whose key equals k *)
+Fixpoint last_def (k : key) (l : list adef) : option adef :=
+  match l with
+  | [] => None
+  | x :: xs =>
+      match last_def k xs with
+      | Some y => Some y
+      | None => if key_eqb k (key_of x) then Some x else None
+      end
+  end.
+
+(* the (name, id) pairs handed to applications.insert / commands.insert, in call order *)
+Definition apps_of_op (o : dop) : list (list byte * N) :=
+  match o with
+  | DLoad apps => map (fun a => (xa_name a, xa_id a)) apps
+  | DAdd _ => []
+  end.
+Definition apps_of (ops : list dop) : list (list byte * N) := flat_map apps_of_op ops.
+Definition cmds_of_op (o : dop) : list (list byte * N) :=
+  match o with
+  | DLoad apps => flat_map xa_cmds apps
+  | DAdd _ => []
+  end.
+Definition cmds_of (ops : list dop) : list (list byte * N) := flat_map cmds_of_op ops.
+
+(* the id of the LAST pair of l whose name equals k *)
+Fixpoint nm_last (k : list byte) (l : list (list byte * N)) : option N :=
+  match l with
+  | [] => None
+  | p :: ps =>
+      match nm_last k ps with
+      | Some v => Some v
+      | None => if list_beq (fst p) k then Some (snd p) else None
+      end
+  end.
+
+(* pieces.join(",") *)
+Fixpoint concat_with_comma (l : list (list byte)) : list byte :=
+  match l with
+  | [] => []
+  | t :: ts => match ts with [] => t | _ :: _ => t ++ x2c :: concat_with_comma ts end
+  end.
